@@ -61,7 +61,7 @@ def draw_values(draw, n: int, dt: str, func: str, *, nan_p=0.2, alphabet=None):
     return vals
 
 
-LABEL_KINDS = ["int", "int", "negint", "bigint", "float", "floatint", "str", "u1", "u8", "i2"]
+LABEL_KINDS = ["int", "int", "negint", "bigint", "float", "floatint", "str", "u1", "u8", "i2", "f4"]
 
 
 def label_pool(draw, kind: str, ngroups: int):
@@ -72,7 +72,7 @@ def label_pool(draw, kind: str, ngroups: int):
         pool = [-7, -3, -1, 0, 2, 5, 9, 11, -12]
     elif kind == "bigint":
         pool = [10**9, 10**9 + 1, -(10**9), 3, 0, 2**40, -5, 77]
-    elif kind == "float":
+    elif kind in ("float", "f4"):
         pool = [-1.5, 0.0, 0.5, 1.0, 2.25, 3.0, 10.0, -8.0]
     elif kind == "floatint":
         # float labels that are mostly integral (the usual "integer codes with NaN for missing") plus fractional ones
@@ -93,7 +93,7 @@ def label_pool(draw, kind: str, ngroups: int):
 
 def label_dtype(kind: str) -> str:
     return {"int": "<i8", "negint": "<i8", "bigint": "<i8", "float": "<f8", "floatint": "<f8", "str": "U", "u1": "|u1", "u8": "<u8",
-            "i2": "<i2", "datetime": "<M8[ns]"}[kind]
+            "i2": "<i2", "datetime": "<M8[ns]", "f4": "<f4"}[kind]
 
 
 def draw_label_codes(draw, n: int, ngroups: int, style: str):
@@ -142,7 +142,7 @@ def draw_labels(draw, n: int, *, kinds=None, max_groups=6, missing=True, styles=
     codes = draw_label_codes(draw, n, ngroups, style)
     vals = [pool[c] for c in codes]
     nmissing = 0
-    if missing and kind in ("float", "floatint") and n > 0:
+    if missing and kind in ("float", "floatint", "f4") and n > 0:
         mstyle = draw(st.sampled_from(["none", "few", "run", "none", "separators"]))
         if mstyle == "separators":
             # every change of label is hidden behind a missing label (comparisons with NaN are always False)
